@@ -2,10 +2,14 @@
     internal/filtering/blocked.go [ApplyBlockedServices],
     [ApplyBlockedServicesList], [BlockedServices.Clone], and the
     blocked-services part of internal/filtering/filter.go
-    [ApplyAdditionalFiltering], with the one assignment of
-    internal/client/storage.go [Storage.ApplyClientFiltering] that concerns
-    them ([if c.UseOwnBlockedServices { setts.BlockedServices =
-    c.BlockedServices.Clone() }]).  No proofs here.
+    [ApplyAdditionalFiltering], and of internal/client/storage.go
+    [Storage.ApplyClientFiltering] on the client it found: the assignment
+    [if c.UseOwnBlockedServices { setts.BlockedServices =
+    c.BlockedServices.Clone() }], which stands BEFORE the early return
+    [if !c.UseOwnSettings { return }], and after it the general settings of
+    the client (represented by [FilteringEnabled]).  The two switches
+    (use_global_blocked_services, use_global_settings in the configuration,
+    both negated) are independent.  No proofs here.
 
     The code reads [time.Now()] twice: once in [ApplyBlockedServices] for the
     global schedule, once in [ApplyAdditionalFiltering] for the schedule of
@@ -17,16 +21,19 @@ From AGH Require Import Base.Run Model.Schedule Model.ScheduleText Model.Blocked
 Import ListNotations.
 Local Open Scope Z_scope.
 
-(** [client.Persistent], the two fields read here. *)
-Record client := { cl_use_own : bool; cl_bsvc : bsvc }.
+(** [client.Persistent], the fields read here: [UseOwnSettings] and
+    [FilteringEnabled] (one of the general settings it guards),
+    [UseOwnBlockedServices] and [BlockedServices]. *)
+Record client := { cl_use_own_settings : bool; cl_filtering : bool;
+                   cl_use_own : bool; cl_bsvc : bsvc }.
 
-(** [filtering.Settings], the two fields written here: the names of
-    [ServicesRules] (the rules of a name are the table's) and
-    [BlockedServices]. *)
-Record settings := { se_rules : list bytes; se_bsvc : option bsvc }.
+(** [filtering.Settings], the fields written here: the names of
+    [ServicesRules] (the rules of a name are the table's),
+    [BlockedServices], and [FilteringEnabled]. *)
+Record settings := { se_rules : list bytes; se_bsvc : option bsvc; se_filtering : bool }.
 
 Definition set_rules (se : settings) (l : list bytes) : settings :=
-  {| se_rules := l; se_bsvc := se_bsvc se |}.
+  {| se_rules := l; se_bsvc := se_bsvc se; se_filtering := se_filtering se |}.
 
 (** [BlockedServices.Clone] -> [Weekly.Clone] + [slices.Clone]: a copy field
     by field. *)
@@ -60,9 +67,14 @@ Section Request.
   Definition apply_client_filtering (c : option client) (se : settings) : settings :=
     match c with
     | Some c =>
-        if cl_use_own c
-        then {| se_rules := se_rules se; se_bsvc := Some (clone_bsvc (cl_bsvc c)) |}
-        else se
+        let se :=
+          if cl_use_own c
+          then {| se_rules := se_rules se; se_bsvc := Some (clone_bsvc (cl_bsvc c));
+                  se_filtering := se_filtering se |}
+          else se in
+        (* setts.ClientName, setts.ClientTags: not in the model *)
+        if negb (cl_use_own_settings c) then se
+        else {| se_rules := se_rules se; se_bsvc := se_bsvc se; se_filtering := cl_filtering c |}
     | None => se
     end.
 
@@ -79,10 +91,33 @@ Section Request.
     end.
 
   (** The settings a request starts from ([DNSFilter.Settings()]: no
-      services rules, no blocked services of a client). *)
-  Definition fresh_settings : settings := {| se_rules := []; se_bsvc := None |}.
+      services rules, no blocked services of a client, the global
+      [FilteringEnabled]). *)
+  Definition settings_of (gf : bool) : settings :=
+    {| se_rules := []; se_bsvc := None; se_filtering := gf |}.
+  Definition fresh_settings : settings := settings_of true.
 
   (** The names of the services blocked for a request. *)
   Definition request_services (g : bsvc) (c : option client) (t1 t2 : Z) : list bytes :=
     se_rules (apply_additional_filtering g c t1 t2 fresh_settings).
+
+  (** [setts.FilteringEnabled] of a request when the global value is [gf]. *)
+  Definition request_filtering (gf : bool) (g : bsvc) (c : option client) (t1 t2 : Z) : bool :=
+    se_filtering (apply_additional_filtering g c t1 t2 (settings_of gf)).
 End Request.
+
+(** The shape of seeded change C18-I: the blocked-services assignment moved
+    below the early return. *)
+Definition apply_client_filtering_c18i (c : option client) (se : settings) : settings :=
+  match c with
+  | Some c =>
+      if negb (cl_use_own_settings c) then se
+      else
+        let se :=
+          if cl_use_own c
+          then {| se_rules := se_rules se; se_bsvc := Some (clone_bsvc (cl_bsvc c));
+                  se_filtering := se_filtering se |}
+          else se in
+        {| se_rules := se_rules se; se_bsvc := se_bsvc se; se_filtering := cl_filtering c |}
+  | None => se
+  end.
